@@ -85,6 +85,8 @@ def o_C01(ctx):
             v.append(([c.id], "panic (caught by catch_unwind) in %s" % c.entry))
         elif r[0] == "missing":
             v.append(([c.id], "no result: the harness process aborted or timed out on this case (%s)" % c.entry))
+        if first(t, "x_accpanic") == "1":
+            v.append(([c.id], "an accessor of an object handed to the visitor panics (%s)" % c.entry))
         nev = first(t, "nev")
         if nev is not None and int(nev) > 3 * len(c.inp) + 1:
             v.append(([c.id], "%s callbacks for %d input bytes (bound 3*len+1)" % (nev, len(c.inp))))
@@ -95,7 +97,7 @@ def o_C01(ctx):
 def o_C02(ctx):
     v = []
     for s, c, t in parser_cases(ctx):
-        if res_of(t) != ("ok",):
+        if res_of(t) != ("ok",) or first(t, "x_accpanic") == "1":
             continue
         k = int(first(t, "consumed"))
         L = len(c.inp)
@@ -114,7 +116,7 @@ def o_C02(ctx):
         if full is None:
             continue
         c, t = full
-        if res_of(t) != ("ok",):
+        if res_of(t) != ("ok",) or first(t, "x_accpanic") == "1":
             continue
         k = first(t, "consumed")
         sig = [(a, b) for a, b in t if not a.startswith("x_") and a != "rem"]
@@ -145,6 +147,8 @@ def o_C03(ctx):
             continue
         if (got == ("ok",)) != r["ok"]:
             v.append(([c.id], "%s: %s but the wire format says %s" % (c.entry, "accepted" if got == ("ok",) else "rejected", "well-formed" if r["ok"] else "malformed (%s)" % err_name(r["err"]))))
+            continue
+        if first(t, "x_accpanic") == "1":
             continue
         if r["ok"]:
             k = int(first(t, "consumed"))
@@ -259,7 +263,7 @@ def cut_before_locktime(c):
 def o_C16(ctx):
     v = []
     for s, c, t in parser_cases(ctx):
-        if c.entry != "transaction" or res_of(t) != ("ok",):
+        if c.entry != "transaction" or res_of(t) != ("ok",) or first(t, "x_accpanic") == "1":
             continue
         r = ref_run(c)
         if not r["ok"]:
@@ -424,7 +428,7 @@ def o_C09(ctx):
 def o_C10(ctx):
     v = []
     for s, c, t in parser_cases(ctx):
-        if res_of(t) != ("ok",) or c.brk >= 0:
+        if res_of(t) != ("ok",) or c.brk >= 0 or first(t, "x_accpanic") == "1":
             continue
         if c.entry == "transaction":
             r = ref_run(c)
@@ -486,7 +490,7 @@ def o_C15(ctx):
 def o_C17(ctx):
     v = []
     for s, c, t in parser_cases(ctx):
-        if c.entry != "txouts" or res_of(t) != ("ok",) or c.brk >= 0:
+        if c.entry != "txouts" or res_of(t) != ("ok",) or c.brk >= 0 or first(t, "x_accpanic") == "1":
             continue
         n = int(first(t, "n"))
         outs = [e.split(",", 2)[2] for e in allv(t, "ev") if e.startswith("5,")]
